@@ -13,15 +13,16 @@ import (
 // ---- G1: protobuf-level model generator for the graph properties ----
 
 type ModelOpt struct {
-	MaxTerm    int  // terminal types (default 2)
-	MaxObj     int  // object types (default 2)
-	MaxRel     int  // relations per object type besides the tupleset (default 5)
-	Hazards    bool // plant cycle hazards (C05)
-	Conditions bool // conditioned / duplicated restrictions (C10)
-	Wildcards  int  // weight of wildcard restrictions out of 6 (default 1)
-	Shapes     bool // plant only the VALID tricky shapes of the hazard catalogue (C04, C10, C11)
-	PureCycles bool // bias towards cycles of pure computed relations (C17)
-	FreeThis   bool // allow several `this` under one operator (C02 style); never used for graph properties
+	MaxTerm          int  // terminal types (default 2)
+	MaxObj           int  // object types (default 2)
+	MaxRel           int  // relations per object type besides the tupleset (default 5)
+	Hazards          bool // plant cycle hazards (C05)
+	Conditions       bool // conditioned / duplicated restrictions (C10)
+	Wildcards        int  // weight of wildcard restrictions out of 6 (default 1)
+	ManyRestrictions bool // direct assignments with up to 14 restrictions (long lists)
+	Shapes           bool // plant only the VALID tricky shapes of the hazard catalogue (C04, C10, C11)
+	PureCycles       bool // bias towards cycles of pure computed relations (C17)
+	FreeThis         bool // allow several `this` under one operator (C02 style); never used for graph properties
 }
 
 func (o *ModelOpt) defaults() {
@@ -101,6 +102,7 @@ func Model(r *rand.Rand, opt ModelOpt) *openfgav1.AuthorizationModel {
 		g.tuplesets = []string{"p", "q"} // a second tupleset with its own parent types
 	}
 	sparse := r.Intn(5) == 0
+	sparseMeta := r.Intn(4) == 0
 	for _, o := range objs {
 		td := &openfgav1.TypeDefinition{Type: o, Relations: map[string]*openfgav1.Userset{}, Metadata: &openfgav1.Metadata{Relations: map[string]*openfgav1.RelationMetadata{}}}
 		if len(g.tuplesets) > 1 {
@@ -148,6 +150,9 @@ func Model(r *rand.Rand, opt ModelOpt) *openfgav1.AuthorizationModel {
 			if hasThis {
 				md.DirectlyRelatedUserTypes = g.restrictions(terms, objs, relNames)
 			}
+			if !hasThis && sparseMeta && r.Intn(2) == 0 {
+				continue // API-style models carry metadata entries only for relations with type restrictions
+			}
 			td.Metadata.Relations[rn] = md
 		}
 		m.TypeDefinitions = append(m.TypeDefinitions, td)
@@ -173,6 +178,9 @@ func Model(r *rand.Rand, opt ModelOpt) *openfgav1.AuthorizationModel {
 func (g *mgen) restrictions(terms, objs, relNames []string) []*openfgav1.RelationReference {
 	r := g.r
 	n := 1 + r.Intn(4)
+	if g.opt.ManyRestrictions {
+		n = 1 + r.Intn(14)
+	}
 	var out []*openfgav1.RelationReference
 	for i := 0; i < n; i++ {
 		var ref *openfgav1.RelationReference
@@ -194,6 +202,10 @@ func (g *mgen) restrictions(terms, objs, relNames []string) []*openfgav1.Relatio
 			src := out[r.Intn(len(out))]
 			dup := &openfgav1.RelationReference{Type: src.GetType(), RelationOrWildcard: src.GetRelationOrWildcard()}
 			dup.Condition = []string{"", "c1", "c2"}[r.Intn(3)]
+			if r.Intn(3) == 0 {
+				// exactly the same restriction again, right after the original
+				dup = &openfgav1.RelationReference{Type: ref.GetType(), RelationOrWildcard: ref.GetRelationOrWildcard(), Condition: ref.GetCondition()}
+			}
 			out = append(out, dup)
 		}
 	}
